@@ -35,6 +35,13 @@ CFGS = {
     "sender_q": dict(Users='{"c1"}', Extras='{"mintto"}', UnstakeAmts="{}", RewardAmts="{2}", Returns="{}", MaxBatches="1", MaxN="9", MaxSeq="4", MaxPk="4",
                      MaxTime="0", AdminOps="FALSE"),
     # IBC faults: every outcome for every packet, refused submissions, permissionless and forced recovery
+    # limits: stakes below / at / above the minimum, mints of zero (stake 1 at a rate above 1), expected_mint_amount met / missed by one,
+    # wrong payments, unknown batch ids, malformed recovery receiver
+    "limits_q": dict(StakeAmts="{1, 2, 3}", MinStake="2", UnstakeAmts="{2}", RewardAmts="{5}", RcvKinds='{"self"}', Returns='{"exact"}',
+                     Extras='{"slippage", "badinputs"}', Outcomes='{"ok", "err"}', MaxN="9", MaxSeq="3", MaxPk="2", MaxBatches="2", MaxTime="3", AdminOps="FALSE",
+                     Principals='{"u1"}'),
+    "limits1_q": dict(StakeAmts="{1, 3}", MinStake="1", UnstakeAmts="{}", RewardAmts="{5}", RcvKinds='{"self"}', Returns="{}",
+                      Extras='{"slippage"}', MaxN="12", MaxSeq="3", MaxPk="3", MaxBatches="1", MaxTime="0", AdminOps="FALSE", Principals='{"u1"}'),
     # two requesters and a return of ONE base unit: payouts of zero, repeated withdrawals
     "dust_q": dict(Users='{"u1", "u2"}', UnstakeAmts="{2}", RewardAmts="{}", RcvKinds='{"self"}', Returns='{"one"}', MaxN="6", MaxSeq="2", MaxPk="2",
                    MaxBatches="2", AdminOps="FALSE", Extras="{}", Principals='{"u1"}', MaxTime="5"),
